@@ -1,6 +1,7 @@
 package props
 
 import (
+	"strings"
 	"fmt"
 
 	"golang.org/x/tools/go/ssa"
@@ -290,6 +291,12 @@ func C09(c *Ctx) {
 		for _, ci := range Calls(f, false, durable) {
 			n++
 			root := FuncName(Root(f))
+			if _, direct := exceptions[root]; !direct {
+				// an unexported helper that only the excepted functions call shares their reason
+				if via := helperOfAllowed(c, Root(f), exceptions, 2); via != "" {
+					root = strings.Split(via, ",")[0]
+				}
+			}
 			k := FuncName(f) + "#" + ObjName(CalleeObj(ci.Common())) + "@" + fmt.Sprint(ordinalIn(f, ci))
 			if _, isDefer := ci.(*ssa.Defer); isDefer {
 				if why, ok := exceptions[root]; ok {
